@@ -19,6 +19,22 @@ def c17(tier):
         doc = harness(["readdir", "-lts", p, "-random", "200" if tier == "quick" else "2000", "-client", "60" if tier == "quick" else "600"], timeout=2400)
     finally:
         os.unlink(p)
+    if tier != "quick":
+        # the larger instance runs without iterator failures; the instance with failures is replayed as well
+        p2 = os.path.join(OUT, "rd-fail.lts")
+        r2 = tlc("readdir", "RdLTS", "RdLTS_quick.cfg", workers=8, timeout=1500, printed_to=p2)
+        if not r2.ok:
+            raise vlib.Inconclusive("Readdir model (iterator failures) violates %s:\n%s" % (r2.violation, r2.out[-3000:]))
+        ck.cov["tlc_runs"].append({"cfg": "RdLTS_quick.cfg", "edges_emitted": r2.nprinted, **r2.summary()})
+        try:
+            d2 = harness(["readdir", "-lts", p2, "-random", "200", "-client", "0"], timeout=2400)
+        finally:
+            os.unlink(p2)
+        d2["samples"] = []
+        hv2 = d2.get("violations") or []
+        if any(v["tag"] == "harness" for v in hv2):
+            raise vlib.Inconclusive("readdir harness problem: %s" % [v for v in hv2 if v["tag"] == "harness"][0])
+        ck.take(d2, prefix="iterfail_")
     if doc.get("extra", {}).get("error"):
         raise vlib.Inconclusive("readdir harness: " + doc["extra"]["error"])
     hv = doc.get("violations") or []
